@@ -31,6 +31,7 @@ type Obligation struct {
 	Seconds float64
 	Model   map[string]string
 	Output  string
+	Retried bool // decided only in the second, long-timeout pass of a check
 	fn      *FuncCtx
 	prune   bool // render queries without the quantified hypotheses that are unrelated to the goal
 }
